@@ -612,43 +612,94 @@ def check_const_subscripts(ctx, unit, classes, rule="B1.const-subscript"):
 # ---- small_vector: inline / heap selection ---------------------------------------------------------
 
 def check_small_vector_selection(ctx, unit, cls="frg::small_vector", rule="E.inline-heap-predicate"):
-    ctx.rule(rule, "small_vector decides inline vs. heap storage by one predicate of _capacity alone: _get_container() "
-             "returns the heap pointer only when it is false, and the destructor deallocates only when it is false", 3)
+    """Name-free and spelling-free: the capacity field is the integer field the default constructor initialises
+    with the inline extent N, the heap field is the pointer-typed field; the branch decisions dominating each
+    site (direct comparisons or calls of one-line bool member predicates, which are evaluated through their
+    return expression) are evaluated under every valuation cap,other in {N-1, N, N+1}: the heap pointer may be
+    returned / deallocated only when every consistent valuation has cap > N, the inline buffer only when every
+    consistent valuation has cap <= N."""
+    ctx.rule(rule, "small_vector decides inline vs. heap storage by a condition equivalent to capacity <= N (N = inline extent): "
+             "the heap pointer is returned only when capacity > N, the inline buffer only when capacity <= N, and the destructor "
+             "deallocates only when capacity > N (conditions evaluated semantically, through predicate helpers)", 5)
+    import itertools
     for rec in recs_of(unit, cls):
         fns = cls_fns(unit, rec["qn"])
-        pred = [f for f in fns if f.name == "_is_small"]
-        if not pred:
-            raise AnalysisBroken("anchor vanished: %s::_is_small" % rec["qn"])
-        for f in pred:
-            reads = {n.m for n in f.events() if n.kind == "MemberExpr" and n.get("mk") == "Field"}
-            ctx.inst(rule, "%s::_is_small%s" % (cls, " const" if f.get("const") else ""), reads == {"_capacity"}, f.loc,
-                     "predicate reads fields %s (instantiation %s)" % (sorted(reads), rec["qn"]), f)
-
-        def under_not_small(f, node_id):
-            for cond, truth in flow.facts_at(f, node_id):
-                c, t = cond.strip(), truth
-                while c.kind == "UnaryOperator" and c.op == "!":
-                    c, t = c.children[0].strip(), not t
-                if c.kind == "CXXMemberCallExpr" and c.callee and c.callee["n"] == "_is_small" and t is False:
-                    return True
-            return False
+        heap = [fl["n"] for fl in rec["fields"] if fl.get("ptr")]
+        capf, N = None, None
         for f in fns:
-            if f.name == "_get_container":
-                for r in f.return_nodes():
-                    v = r.child("val")
-                    p = path(v) if v is not None else None
-                    if p == ("this", "_elements"):
-                        ctx.inst(rule, "%s::_get_container%s: heap arm" % (cls, " const" if f.get("const") else ""),
-                                 under_not_small(f, r.id), r.loc, "heap pointer returned under !_is_small()", f)
-                    else:
-                        small = any(c.strip().kind == "CXXMemberCallExpr" and c.strip().callee["n"] == "_is_small" and t
-                                    for c, t in flow.facts_at(f, r.id))
-                        ctx.inst(rule, "%s::_get_container%s: inline arm" % (cls, " const" if f.get("const") else ""),
-                                 small, r.loc, "inline buffer returned under _is_small()", f)
+            if f.kind != "ctor":
+                continue
+            for n in f.events():
+                if n.kind == "CtorInit" and n.get("field") and n.get("init") is not None:
+                    iv = f.node(n.get("init"))
+                    x = iv
+                    while x is not None and x.kind in ("ImplicitCastExpr", "ParenExpr") and x.children:
+                        x = x.children[0]
+                    if x is not None and x.kind == "SubstNonTypeTemplateParmExpr" and iv.strip().cv() is not None:
+                        capf, N = n.get("field"), iv.strip().cv()
+        if len(heap) != 1 or capf is None:
+            raise AnalysisBroken("anchor vanished: %s: heap pointer field / capacity field initialised with the inline extent" % rec["qn"])
+        heap = heap[0]
+        inline = [fl["n"] for fl in rec["fields"] if fl.get("rt") == "frg::array"]
+        ints = [fl["n"] for fl in rec["fields"] if not fl.get("ptr") and not fl.get("rt")]
+        by_name = {}
+        for f in fns:
+            by_name.setdefault(f.name, []).append(f)
+
+        def ev(node, valuation, depth=0):
+            def leaf(x):
+                x = x.strip()
+                p = path(x)
+                if p and len(p) == 2 and p[0] == "this" and p[1] in valuation:
+                    return valuation[p[1]]
+                if x.kind == "CXXMemberCallExpr" and x.callee and depth < 3:
+                    for g in by_name.get(x.callee["n"], ()):
+                        rs = g.return_nodes()
+                        if len(rs) == 1 and rs[0].child("val") is not None and not g.params():
+                            return ev(rs[0].child("val"), valuation, depth + 1)
+                return None
+            return flow.sem_eval(node, leaf)
+
+        vals = [dict(zip(ints, c)) for c in itertools.product((N - 1, N, N + 1), repeat=len(ints))]
+
+        def consistent(f, node_id):
+            facts = flow.facts_at(f, node_id)
+            out = []
+            for v in vals:
+                ok = True
+                for cond, truth in facts:
+                    r = ev(cond, v)
+                    if r is not None and bool(r) != truth:
+                        ok = False
+                        break
+                if ok:
+                    out.append(v)
+            return out
+
+        def judge(f, node, want_heap, what, k):
+            cons = consistent(f, node.id)
+            bad = [v for v in cons if (v[capf] > N) != want_heap]
+            ctx.inst(rule, "%s::%s%s: %s #%d" % (cls, f.name, " const" if f.get("const") else "", what, k), not bad, node.loc,
+                     "%s under a condition that admits %s=%s with inline extent %d" % (what, capf, sorted({v[capf] for v in bad}), N)
+                     if bad else "%s only when %s %s %d" % (what, capf, ">" if want_heap else "<=", N), f)
+
+        for f in fns:
+            k = 0
+            for r in f.return_nodes():
+                v = r.child("val")
+                if v is None or "*" not in (f.get("ret") or ""):
+                    continue
+                p = path(std_unwrap(v))
+                if p == ("this", heap):
+                    k += 1
+                    judge(f, r, True, "heap pointer returned", k)
+                elif any(x.kind == "MemberExpr" and x.get("mk") == "Field" and x.m in inline and path(x) == ("this", x.m) for x in v.walk()):
+                    k += 1
+                    judge(f, r, False, "inline buffer returned", k)
             if f.kind == "dtor":
-                for n in free_calls(f):
-                    ctx.inst(rule, "%s::~: deallocate" % cls, under_not_small(f, n.id), n.loc,
-                             "heap buffer released only under !_is_small()", f)
+                for i, n in enumerate(free_calls(f)):
+                    if n.kind == "CXXMemberCallExpr":
+                        judge(f, n, True, "heap buffer released", i + 1)
 
 
 # ---- O7: no use after destroy / free ------------------------------------------------------------------
